@@ -38,7 +38,11 @@ pub enum Op {
     CSplit,
 }
 
-const PATTERNS: [[u8; 3]; 4] = [[0, 1, 2], [2, 1, 0], [1, 1, 0], [0, 0, 0]];
+/// 255 = not evaluated
+const PATTERNS: [[u8; 3]; 6] = [[0, 1, 2], [2, 1, 0], [1, 1, 0], [0, 0, 0], [0, 255, 1], [255, 255, 0]];
+/// how the stack under test is constructed: 0 Populations::new(), 1 Populations::default(), 2 state.entry().or_default(), 3 what std::mem::take leaves behind
+const CTORS: [&str; 4] = ["new", "default", "entry-or-default", "left-by-mem-take"];
+pub static CTOR: std::sync::atomic::AtomicU8 = std::sync::atomic::AtomicU8::new(0);
 
 #[derive(Clone, Debug, PartialEq)]
 pub enum R {
@@ -53,6 +57,9 @@ pub enum R {
 }
 
 fn mk(i: &Ind) -> Individual<TagP> {
+    if i.1 == 255 {
+        return Individual::new_unevaluated(i.0);
+    }
     Individual::new(i.0, so(i.1 as f64))
 }
 fn rd(i: &Individual<TagP>) -> Ind {
@@ -70,6 +77,8 @@ fn dump(st: &State<'static, TagP>) -> Vec<Pop> {
 pub struct Stack {
     pub max_h: usize,
     pub max_s: usize,
+    /// how many of the objective patterns are pushed (the last two hold unevaluated individuals)
+    pub npat: usize,
 }
 
 /// Reference: index 0 = top.
@@ -291,7 +300,24 @@ fn canon(d: &[Pop]) -> Vec<Pop> {
 
 fn build(hist: &[Op]) -> (State<'static, TagP>, Model, u32) {
     let mut st: State<'static, TagP> = State::new();
-    st.insert(Populations::<TagP>::new());
+    match CTOR.load(std::sync::atomic::Ordering::Relaxed) {
+        0 => {
+            st.insert(Populations::<TagP>::new());
+        }
+        1 => {
+            st.insert(Populations::<TagP>::default());
+        }
+        2 => {
+            st.entry::<Populations<TagP>>().or_default();
+        }
+        _ => {
+            let mut used = Populations::<TagP>::new();
+            used.push(vec![mk(&(77, 1))]);
+            st.insert(used);
+            let taken = std::mem::take(&mut *st.populations_mut());
+            drop(taken);
+        }
+    }
     let mut model = Model { s: vec![], next_tag: 0 };
     let mut next_tag = 0u32;
     for h in hist {
@@ -491,7 +517,7 @@ impl System for Stack {
         if h < self.max_h {
             v.push(Push(0, 0));
             for k in 1..=self.max_s as u8 {
-                for pat in 0..PATTERNS.len() as u8 {
+                for pat in 0..self.npat as u8 {
                     // patterns that coincide on the first k entries are the same operation
                     if (0..pat).any(|q| PATTERNS[q as usize][..k as usize] == PATTERNS[pat as usize][..k as usize]) {
                         continue;
@@ -527,7 +553,7 @@ impl System for Stack {
                 v.push(CDuplicate);
             }
             // splitting is specified for populations of at least two evaluated individuals
-            if key[0].len() >= 2 && h < self.max_h {
+            if key[0].len() >= 2 && h < self.max_h && key[0].iter().all(|x| x.1 != 255) {
                 v.push(CSplit);
             }
         }
@@ -687,15 +713,26 @@ pub fn run(rep: &mut Report) {
     rep.alpha("components RotatePopulations(n) for n <= h+1, ClearPopulation, DuplicatePopulation, InterleavePopulations, SplitPopulationByObjectiveValue (populations of >= 2 evaluated individuals)");
     rep.assume("tags are renamed in order of first appearance (no stack operation inspects solutions); objective ranks are part of the key because the split component reads them");
     rep.assume("for rotation only what the statement fixes is required (exactly the top n change, cyclic shift by one, n = 0..height succeed); the documented direction is a separate signature of the same property");
-    let (h, s) = rep.tier.pick((3usize, 2usize), (4usize, 3usize));
+    let (h, s) = rep.tier.pick((3usize, 2usize), (4usize, 2usize));
     let mut p = Part::new("popstack.merged-bfs");
     p.bound("max_height", h as u64).bound("max_population_size", s as u64);
-    let sys = Stack { max_h: h, max_s: s };
-    bfs(&sys, &BfsCfg { max_depth: 64, history_complete: false, max_states: 3_000_000, kind: "merged (key = canonical dump of the real stack)" }, &mut p, "history");
+    // thorough: heights up to 4 with populations of up to 2 (all patterns incl. unevaluated individuals); populations of 3 in a search of their own below
+    let sys = Stack { max_h: h, max_s: s, npat: PATTERNS.len() };
+    bfs(&sys, &BfsCfg { max_depth: 64, history_complete: false, max_states: 6_000_000, kind: "merged (key = canonical dump of the real stack)" }, &mut p, "history");
     p.outcome("agree");
     p.outcome(format!("states:{}", p.states));
     p.require(p.states > 100 || !p.violations.is_empty(), "too few states");
     rep.push(p);
+
+    if rep.tier == crate::engine::report::Tier::Thorough {
+        let mut p = Part::new("popstack.merged-bfs.populations-of-three");
+        p.bound("max_height", 3).bound("max_population_size", 3);
+        let sys = Stack { max_h: 3, max_s: 3, npat: 4 };
+        bfs(&sys, &BfsCfg { max_depth: 64, history_complete: false, max_states: 6_000_000, kind: "merged (key = canonical dump of the real stack)" }, &mut p, "history");
+        p.outcome("agree");
+        p.outcome(format!("states:{}", p.states));
+        rep.push(p);
+    }
 
     // tall stacks: a plain stack has no height limit. From the stack reached by h pushes (h = 0..H) the whole
     // alphabet (every depth for peek, every n for rotate) is applied once more.
@@ -705,7 +742,7 @@ pub fn run(rep: &mut Report) {
     let mut hist: Vec<Op> = vec![];
     let mut key: Vec<Pop> = vec![];
     'ramp: for h in 0..=hmax {
-        let sys = Stack { max_h: h + 1, max_s: 2 };
+        let sys = Stack { max_h: h + 1, max_s: 2, npat: PATTERNS.len() };
         let ops = sys.ops(&key);
         let res: Vec<(Op, StepResult<Vec<Pop>>)> = ops.par_iter().map(|op| (op.clone(), run_history(&hist, op))).collect();
         p.states += 1;
@@ -777,10 +814,31 @@ pub fn run(rep: &mut Report) {
     }
     rep.push(p);
 
+    // every way of obtaining an empty stack gives the same plain stack
+    let mut p = Part::new("popstack.constructors");
+    p.bound("max_height", 2).bound("max_population_size", 1);
+    for ctor in 1..=3u8 {
+        CTOR.store(ctor, std::sync::atomic::Ordering::Relaxed);
+        let sys = Stack { max_h: 2, max_s: 1, npat: PATTERNS.len() };
+        let mut q = Part::new("ctor");
+        bfs(&sys, &BfsCfg { max_depth: 64, history_complete: false, max_states: 100_000, kind: "merged" }, &mut q, "history");
+        CTOR.store(0, std::sync::atomic::Ordering::Relaxed);
+        p.states += q.states;
+        p.transitions += q.transitions;
+        p.traces += q.traces;
+        p.outcome(format!("ctor:{}:states:{}", ctor, q.states));
+        for v in q.violations.drain(..) {
+            let mut case = v.replay.clone();
+            case["ctor"] = json!(ctor);
+            p.violate(format!("{} constructed={}", v.sig, CTORS[ctor as usize]), v.detail.clone(), case);
+        }
+    }
+    rep.push(p);
+
     let mut p = Part::new("popstack.history-complete");
     let len = rep.tier.pick(3usize, 4usize);
     p.bound("history_length", len as u64).bound("max_height", 3).bound("max_population_size", 2);
-    let sys = Stack { max_h: 3, max_s: 2 };
+    let sys = Stack { max_h: 3, max_s: 2, npat: PATTERNS.len() };
     bfs(&sys, &BfsCfg { max_depth: len, history_complete: true, max_states: 30_000_000, kind: "history-complete (no merging)" }, &mut p, "history");
     p.outcome("agree");
     p.outcome(format!("states:{}", p.states));
@@ -836,8 +894,13 @@ pub fn replay(case: &Value) -> Result<Vec<(String, String)>, String> {
         return Ok(vec![]);
     }
     let (last, hist) = ops.split_last().unwrap();
-    Ok(match run_history(hist, last) {
-        StepResult::Violation(s, d) => vec![(s, d)],
+    let ctor = case["ctor"].as_u64().unwrap_or(0) as u8;
+    CTOR.store(ctor, std::sync::atomic::Ordering::Relaxed);
+    let r = run_history(hist, last);
+    CTOR.store(0, std::sync::atomic::Ordering::Relaxed);
+    Ok(match r {
+        StepResult::Violation(s, d) if ctor == 0 => vec![(s, d)],
+        StepResult::Violation(s, d) => vec![(format!("{} constructed={}", s, CTORS[ctor as usize]), d)],
         _ => vec![],
     })
 }
